@@ -28,6 +28,98 @@ fn encoder_count(tier: Tier) -> u64 {
         Tier::Thorough => 400_000,
     }
 }
+fn nodevol_count(tier: Tier) -> u64 {
+    match tier {
+        Tier::Quick => 12_000,
+        Tier::Thorough => 300_000,
+    }
+}
+
+/// The encoder as consumer, judged by values: maps built through the API (no sample points of their own) whose sliders
+/// carry a distinct volume on every node. After encode + decode, the sample point ACTIVE just after each node's
+/// closed-form time (head, every repeat, tail) must carry that node's volume — whatever the encoder dropped as
+/// redundant on the way. Nodes without an own sample list fall back to the object's samples; nodes with no samples at
+/// all, zero-length or unbounded sliders make no claim.
+fn exec_nodevol(plan: &Plan, st: &mut Stats) -> Result<(), Violation> {
+    use rosu_map::section::general::GameMode;
+    use rosu_map::section::hit_objects::hit_samples::HitSampleInfo;
+    use rosu_map::section::hit_objects::{HitObject, HitObjectKind, HitObjectSlider, PathControlPoint, SliderPath};
+    use rosu_map::section::timing_points::{TimeSignature, TimingPoint};
+    use rosu_map::util::Pos;
+    use rosu_map::Beatmap;
+    let mode = if plan.get("mode") == 2 { GameMode::Catch } else { GameMode::Osu };
+    let mut map = Beatmap { mode, ..Default::default() };
+    map.control_points.add(TimingPoint::new(0.0, 500.0, false, TimeSignature::new_simple_quadruple()));
+    let vol = |v: f64| -> Vec<HitSampleInfo> { if v < 0.0 { Vec::new() } else { vec![HitSampleInfo::new(HitSampleInfo::HIT_NORMAL, None, 0, v as i32)] } };
+    // (node time, expected volume)
+    let mut claims: Vec<(f64, i32, usize, usize, Option<i32>)> = Vec::new();
+    let mut t = 1000.0f64;
+    for (si, op) in plan.ops.iter().filter(|o| o.k == "slider").enumerate() {
+        let (gap, len, velocity, repeats, nlists, objv) = (op.arg(0), op.arg(1), op.arg(2), op.iarg(3).clamp(0, 9100) as i32, op.iarg(4).max(0) as usize, op.arg(5));
+        let vols: Vec<f64> = op.a[6..].to_vec();
+        let start = t + gap;
+        let pts = vec![PathControlPoint::new(Pos::new(0.0, 0.0)), PathControlPoint::new(Pos::new(len as f32, 0.0))];
+        let mut slider = HitObjectSlider { pos: Pos::new(100.0, 100.0), new_combo: false, combo_offset: 0, path: SliderPath::new(mode, pts, Some(len)), node_samples: Vec::new(), repeat_count: repeats, velocity };
+        let nodes = repeats as usize + 2;
+        for k in 0..nlists.min(nodes + 2) {
+            slider.node_samples.push(vol(vols[k % vols.len().max(1)]));
+        }
+        let dist = slider.path.curve().dist();
+        let spans = f64::from(repeats + 1);
+        let duration = spans * dist / velocity;
+        let span_dur = duration / spans;
+        // the public duration API is what both consumers derive the span duration from
+        let api = slider.duration();
+        if api.to_bits() != duration.to_bits() && !(api.is_nan() && duration.is_nan()) {
+            return Err(Violation::new("C20/encoder-span-duration", "duration", format!("slider #{si}: HitObjectSlider::duration() = {api}, span count x curve distance / velocity = {duration} (spans {spans}, dist {dist}, velocity {velocity})")));
+        }
+        let claimable = span_dur.is_finite() && span_dur > 1e-3 && duration < 1e9;
+        if claimable {
+            for k in 0..nodes {
+                let eff = match slider.node_samples.get(k) {
+                    Some(l) => l.first().map(|s| s.volume),
+                    None => if objv < 0.0 { None } else { Some(objv as i32) },
+                };
+                // the tail shares its time with the object's own end-time sample, which is collected first: the node wins;
+                // a node without any sample leaves the object's end-time sample in force there
+                let eff = if k == nodes - 1 && eff.is_none() && objv >= 0.0 { Some(objv as i32) } else { eff };
+                // (the object's end time and the last node's time are computed along different routes and may differ by
+                // an ulp either way: at the tail the object's own volume is accepted as well)
+                let alt = if k == nodes - 1 && objv >= 0.0 { Some(objv as i32) } else { None };
+                if let Some(v) = eff {
+                    claims.push((start + k as f64 * span_dur, v, si, k, alt));
+                }
+            }
+        }
+        map.hit_objects.push(HitObject { start_time: start, kind: HitObjectKind::Slider(slider), samples: vol(objv) });
+        t = if duration.is_finite() { start + duration.min(1e9) + 500.0 } else { start + 5000.0 };
+    }
+    st.add("steps.ops_applied", map.hit_objects.len() as u64);
+    let text = match map.encode_to_string() {
+        Ok(t) => t,
+        Err(_) => return Ok(()),
+    };
+    let back: Beatmap = match rosu_map::from_str(&text) {
+        Ok(b) => b,
+        Err(_) => return Ok(()),
+    };
+    st.inc("ops.encoder-node-volume-lookups");
+    let mut h = Fnv::new();
+    for (time, v, si, k, alt) in claims {
+        let got = back.control_points.sample_point_at(time + 1e-6).map(|p| p.sample_volume);
+        h.u64(got.unwrap_or(-1) as u64);
+        st.inc("steps.node-volume-claims");
+        if got != Some(v) && !(alt.is_some() && got == alt) {
+            return Err(Violation::new(
+                "C20/encoder-node-sample-missing",
+                "node-volume",
+                format!("slider #{si}, node {k} (closed-form time {time}): its samples carry volume {v}, but in the encoded map the sample point active right after that time has volume {got:?} — the head / repeat / tail event of that node was not consumed at its time with its samples\n[TimingPoints] written:\n{}", text.split("[TimingPoints]").nth(1).unwrap_or("").split("\n[").next().unwrap_or("")),
+            ));
+        }
+    }
+    st.outcome = h.finish();
+    Ok(())
+}
 
 /// Every control-point time the encoder writes must be a control-point time of the map or the closed-form time of a
 /// head / repeat / tail / object end (that is where the encoder collects samples while walking each slider's events).
@@ -435,6 +527,7 @@ impl Scenario for C20 {
                 Tier::Thorough => 12_000_000,
             }
             + encoder_count(tier)
+            + nodevol_count(tier)
     }
     fn plan(&self, seed: u64, idx: u64, _tier: Tier) -> Plan {
         let plain = grid_count() - EXACT.len() as u64 * 6;
@@ -466,7 +559,33 @@ impl Scenario for C20 {
             return p;
         }
         let mut rng = Rng::for_run(seed, "C20", idx);
-        if idx >= self.total_runs(_tier) - encoder_count(_tier) {
+        if idx >= self.total_runs(_tier) - nodevol_count(_tier) {
+            let mut p = Plan::new("C20", "encoder-node-volumes", seed, idx);
+            p.set("mode", *rng.pick(&[0i64, 2]));
+            for _ in 0..1 + rng.below(4) {
+                let repeats = if rng.chance(1, 300) { 9000 + rng.below(12) } else if rng.chance(1, 10) { 5 + rng.below(30) } else { rng.below(5) } as f64;
+                let nodes = repeats as usize + 2;
+                let len = *rng.pick(&[100.0, 50.0, 300.0, 37.5, 120.25, 5.0]) * (0.5 + rng.unit());
+                let velocity = if rng.chance(1, 30) { 0.0 } else { *rng.pick(&[0.5, 1.0, 0.78, 2.0, 1.4, 0.1, 3.3]) * if rng.chance(1, 2) { 1.0 } else { 0.5 + rng.unit() } };
+                let nlists = match rng.below(6) {
+                    0 => 0,
+                    1 => 1,
+                    2 => nodes.saturating_sub(1),
+                    3 => nodes + 1,
+                    _ => nodes,
+                } as f64;
+                let objv = if rng.chance(1, 6) { -1.0 } else { *rng.pick(&[30.0, 55.0, 80.0, 100.0]) };
+                let mut a = vec![rng.range(0, 400) as f64, len, velocity, repeats, nlists, objv];
+                // volumes cycle through a short list of distinct values (an occasional -1: a node with an empty list)
+                let nv = 2 + rng.below(4);
+                for j in 0..nv {
+                    a.push(if rng.chance(1, 12) { -1.0 } else { 10.0 + 7.0 * j as f64 + rng.below(5) as f64 });
+                }
+                p.ops.push(Op { k: "slider".into(), a });
+            }
+            return p;
+        }
+        if idx >= self.total_runs(_tier) - encoder_count(_tier) - nodevol_count(_tier) {
             // the library's own caller: the encoder derives the parameters of each slider and walks its events with one
             // shared tick buffer to place sample points at head / repeat / tail times
             let mut p = Plan::new("C20", "encoder-as-caller", seed, idx);
@@ -548,6 +667,9 @@ impl Scenario for C20 {
     fn execute(&self, plan: &Plan, st: &mut Stats) -> Result<(), Violation> {
         if plan.scen == "encoder-as-caller" {
             return exec_encoder(plan, st);
+        }
+        if plan.scen == "encoder-node-volumes" {
+            return exec_nodevol(plan, st);
         }
         let mut shared: Vec<SliderEvent> = Vec::new();
         let mut h = Fnv::new();
